@@ -85,6 +85,7 @@ public:
       while (ld.myflags[r].flag[parity] != sense) {
         galois::substrate::asmPause();
       }
+      GALOIS_VERIF_POINT(BAR_DISS_ROUND);
     }
     if (parity == 1)
       sense = 1 - ld.sense;
